@@ -740,13 +740,17 @@ class Rtc(ContentElement):
     raise RuntimeError("Rtc children must be removed using `remove_children`")
 
   def push_children(self, children: typing.Iterable[ContentElement]):
-    cs = list(children)
+    children = list(children)
+    cs = children
 
     if len(cs) > 2 and isinstance(cs[0], Rp) and isinstance(cs[-1], Rp):
       cs = cs[1:-1]
 
     if not all(isinstance(x, Rt) for x in cs):
       raise ValueError("Children of rtc do not conform to requirements")
+
+    if self.has_children():
+      raise RuntimeError("Remove all rtc children before adding more.")
 
     for child in children:
       super().push_child(child)
